@@ -305,8 +305,28 @@ func TestC07(t *testing.T) {
 	cfg := engine.DefaultConfig()
 	rapid.Check(t, func(rt *rapid.T) {
 		p := proggen.Gen(rt, proggen.GenOpts{Focus: "all", MinPkgs: 1, MaxPkgs: 3, TestFiles: false, Aliases: true, Rich: true})
+		// generated code: a //line directive in front of a declaration renames and
+		// renumbers the rest of the file (in the base and in the commented program
+		// alike); scopes of @ignore comments follow the physical layout
+		var dirNode *proggen.Node
+		var dirFile *proggen.File
+		if rapid.IntRange(0, 9).Draw(rt, "lineDirective") < 3 {
+			var ds []proggen.NodeRef
+			for _, n := range p.Nodes() {
+				if n.Stmt == nil {
+					ds = append(ds, n)
+				}
+			}
+			if len(ds) > 0 {
+				n := ds[rapid.IntRange(0, len(ds)-1).Draw(rt, "dirNode")]
+				n.Node.Before = append(n.Node.Before, fmt.Sprintf("//line zz_%s:%d", n.File.Name, rapid.SampledFrom([]int{1, 1, 7, 100001}).Draw(rt, "dirLine")))
+				dirNode, dirFile = n.Node, n.File
+				p.Render()
+			}
+		}
 		base := loadOrBug(rt, id, p, cfg)
 		srcA := p.Sources()
+		base.Diags = unshiftDiags(srcA, base.Diags)
 		baseKeys := siteKeys(srcA, base.Diags, 0, nil, true)
 		// choose a target diagnostic (if any)
 		var tagged []string
@@ -317,6 +337,21 @@ func TestC07(t *testing.T) {
 		}
 		sort.Strings(tagged)
 		targetSite, targetCode := 0, allCodes[rapid.IntRange(0, len(allCodes)-1).Draw(rt, "anyCode")]
+		if dirNode != nil {
+			// prefer a diagnostic below the directive
+			tl := p.TagLines()
+			var below []string
+			for _, k := range tagged {
+				var site int
+				fmt.Sscanf(k, "s%d", &site)
+				if w := tl[site]; w.File == dirFile.Pkg.Dir+"/"+dirFile.Name && w.Line > dirNode.Start {
+					below = append(below, k)
+				}
+			}
+			if len(below) > 0 && rapid.IntRange(0, 9).Draw(rt, "belowDirective") < 7 {
+				tagged = below
+			}
+		}
 		if len(tagged) > 0 {
 			k := tagged[rapid.IntRange(0, len(tagged)-1).Draw(rt, "targetDiag")]
 			fmt.Sscanf(k, "s%d %s", &targetSite, &targetCode)
@@ -354,6 +389,10 @@ func TestC07(t *testing.T) {
 		}
 		var inserted []ins
 		used := map[*proggen.Node]bool{}
+		if dirNode != nil {
+			used[dirNode] = true
+			ev.Class(id, "file with a //line directive")
+		}
 		ncomments := 1
 		if rapid.IntRange(0, 9).Draw(rt, "moreComments") < 3 {
 			ncomments = rapid.IntRange(2, 3).Draw(rt, "ncomments")
